@@ -11,6 +11,21 @@ IMG = ["uint8", "uint16", "uint32", "uint64"]
 FLT = ["float16", "float32", "float64"]
 
 
+def safe_fdt(cfg, fdt):
+    """float16 resolves level + ramp/8 exactly only below 128: fall back to float32 when the
+    configuration can accumulate more than that in one bucket."""
+    if fdt != "float16":
+        return fdt
+    n = len(cfg["times"])
+    worst = 0
+    for b in ("photon", "pixel", "signal"):
+        tot = sum(m["base"] + n for g in cfg["pipe"] for m in g if m["kind"] in ("add", "set") and m["b"] == b)
+        if b == "pixel" and cfg["nd"]:
+            tot *= n
+        worst = max(worst, tot + max(cfg["prior"].get(b, 0), 0))
+    return "float16" if worst < 120 else "float32"
+
+
 def debug_clause(ctx, traces):
     """Debug records, after each model, the buckets this model changed (observed before/after
     states of consecutive probe calls vs the recorded /intermediate nodes)."""
@@ -37,6 +52,8 @@ def debug_clause(ctx, traces):
                     after[mdl["b"]] = mdl["base"] + k
                 elif mdl["kind"] == "add" and act and mdl["b"] in after:
                     after[mdl["b"]] = max(after[mdl["b"]], 0) + mdl["base"] + k
+                elif mdl["kind"] == "padd" and act:
+                    after["charge"] = max(after["charge"], 0) + mdl["base"] + k
             exp = {b: after[b] for b in px.ARRAY_BUCKETS
                    if after[b] != c["seen"][b] and after[b] != px.EMPTY}
             got = dict(rec.get(f"{k}/{c['g']}/{c['name']}", {}))
@@ -62,7 +79,7 @@ def run(ctx):
     for k, cfg in enumerate(cases):
         c = copy.deepcopy(cfg)
         c["imgdt"] = IMG[k % 4]
-        extra = {"fdt": FLT[k % 3]}
+        extra = {"fdt": safe_fdt(c, FLT[k % 3])}
         if k % 7 == 3:
             extra["photon3d"] = 3
         jobs.append(dict(cfg=c, hier=bool(k % 2), extra=extra, debug=False))
@@ -76,12 +93,12 @@ def run(ctx):
     debug_clause(ctx, traces)
     P.validate(ctx, traces, "replay")
 
-    n = ctx.pick(200, 2500)
+    n = ctx.pick(120, 2500)
     jobs = []
     for k in range(n):
         cfg = P.random_cfg(ctx.rng, max_models=3, max_steps=ctx.pick(6, 12), kinds=("set", "add", "padd", "obs"), p_img=0.9)
         jobs.append(dict(cfg=cfg, hier=ctx.rng.random() < 0.5, debug=ctx.rng.random() < 0.4,
-                         extra={"fdt": ctx.rng.choice(FLT)}, kind=ctx.rng.choice(["ccd", "cmos"])))
+                         extra={"fdt": safe_fdt(cfg, ctx.rng.choice(FLT))}, kind=ctx.rng.choice(["ccd", "cmos"])))
     traces = P.record(jobs)
     for t, j in zip(traces, jobs):
         t["meta"]["extra"] = j.get("extra")
